@@ -36,6 +36,27 @@ image source) is run to see which images it skips.  The walk is level-synchronis
 their continuation and are counted individually.  `./check C18 --replay FILE` re-executes one recorded history.
 One physical scenario outside the graph: an image with a file name of NAME_MAX-4 characters (legal, but name + any
 temporary suffix is not) is published once per listing order and the safety sentences are judged on the real disk.
+
+FILE SETS WITH SUB-FOLDERS (suites whose tag ends in "n").  A file of an image is named by its path relative to the image
+directory ("tiles/1/0_0.png"); the store, the work dir, the snapshots and every monitor address it by that path (the whole
+store tree is compared; entries that are not files of the image - temporary files a killed put_item left behind - are never
+taken for one: each file of the image is looked up by its exact relative path).  As built (Traversal = "listdir", action
+RefuseSubdir, invariant NestedClosed) publish() opens every directory entry as a file and raises IsADirectoryError at a
+sub-folder before index.wtml is sent: the safety sentences are judged for these file sets, "re-running completes the job"
+only for flat ones (noted, not a violation).  An undisturbed probe run tells whether the publish() under test refuses or
+descends; if it descends, TLC dumps the graph of a publisher about whose traversal nothing is assumed (Traversal =
+"descend-any", IndexImpliesAll evaluated by TLC in every state), the runs that use the traversal the real code is observed
+to make (directories listed in sorted and in reverse order through os.listdir / os.scandir / os.walk) are replayed with a
+fault before, during and after every transfer, nested ones included.  The to-be model "index.wtml last among ALL files of
+the image" (Traversal = "descend-index-last") is proved by TLC in the thorough tier.
+
+BEYOND THE STATED QUANTIFIER (spec/PublishOverlap.tla, overlap_exploration): two publish() runs overlapping on one image,
+each a process of its own that may be killed.  TLC proves the safety invariant for the temporary name per process of the
+code as built and refutes it for one temporary name per item; every path of the as-built graph with at most 2 (thorough: 3)
+preemptions is replayed on two forked processes running the real publish(), each let go one spec step at a time (put_item
+entry, every block of the source stream, close + rename), the real store compared with the spec state after every step and
+the safety sentences judged when both have ended.  The unchanged tree is clean under it; a failure is reported under keys of
+its own (C18:publish:overlapping-runs:...) and says that it lies outside the property's quantifier.
 """
 import contextlib
 import copy
@@ -312,7 +333,7 @@ class Plan(object):
 # real-code side
 # ------------------------------------------------------------------------------------------------
 
-POOL = 6        # worker processes of the replay
+POOL = max(1, min(8, int(os.environ.get("VERIF_POOL", "8"))))        # worker processes of the replays
 
 
 class SimulatedCrash(BaseException):
@@ -1666,7 +1687,7 @@ def _overlap_replay(args):
                         sync = False
                         drifts.append("after step %s of publisher %d the real run is at %s, spec at %s" % (
                             act, q, rp[1], [want, spec["k"][q - 1], spec["b"][q - 1]]))
-                if sync:
+                if sync and act != "Begin":
                     items, loc = real_state()
                     if items != spec["items"] or loc != spec["loc"]:
                         sync = False
@@ -1729,33 +1750,73 @@ def tempfile_mkdtemp(base):
     return tempfile.mkdtemp(prefix="ov%d-" % os.getpid(), dir=base)
 
 
-def overlap_exploration(ctx, tlc_raw, atomic, only=None, order=None):
+def overlap_suites(ctx, only=None, order=None):
+    """(tag, transfer list, kill budget of publisher 1 / 2, preemption bound, symmetric) of the overlap exploration.
+    symmetric: both publishers may be killed equally often, so a schedule and the one with the two names swapped are the same
+    schedule - only those in which publisher 1 makes the first step are replayed."""
+    if only:
+        return [("replay", list(order), [1, 1], None, False)]
+    if ctx.quick:
+        return [("o2", [BIG, INDEX], [0, 1], 2, False)]
+    return [("o2", [BIG, INDEX], [1, 1], None, True), ("o3", ["thumb.jpg", BIG, INDEX], [1, 1], 2, True)]
+
+
+def overlap_tlc_jobs(ctx, suites):
+    """name -> zero-argument callable that runs the TLC job."""
+    inv = ["TypeOK", "QIndexImpliesAll", "QPublishedImpliesAll", "ItemsWhole"]
+    jobs = {}
+    for tag, order, crash, bound, sym in suites:
+        def tlc(name, cfg_text, order=order, crash=crash, **kw):
+            return ctx.tlc(name, extra={name + ".tla": overlap_module(name, order, crash)}, cfg_text=cfg_text, timeout=3000, **kw)
+        jobs["MCPublishOverlap_%s_asbuilt" % tag] = functools.partial(tlc, "MCPublishOverlap_%s_asbuilt" % tag, overlap_cfg(False, inv, emit=True), workers=1)
+        jobs["MCPublishOverlap_%s_shared_refuted" % tag] = functools.partial(
+            tlc, "MCPublishOverlap_%s_shared_refuted" % tag, overlap_cfg(True, ["TypeOK", "QIndexImpliesAll"]), workers=1, expect_violation=True, count=False)
+    if not ctx.quick and suites[0][0] != "replay":
+        tag, order = suites[0][0], suites[0][1]
+        jobs["MCPublishOverlap_%s_liveness" % tag] = functools.partial(
+            lambda name, order=order: ctx.tlc(name, extra={name + ".tla": overlap_module(name, order, [0, 0])},
+                                              cfg_text=overlap_cfg(False, inv, properties=["SomeoneCompletes"]), timeout=3000, workers=2),
+            "MCPublishOverlap_%s_liveness" % tag)
+    return jobs
+
+
+def overlap_exploration(ctx, atomic, only=None, order=None, suites=None, results=None):
     """Two overlapping publish() runs on one image - outside the property's quantifier (one publisher with injected
-    crashes / failures), explored separately and reported under keys of its own.  only = a recorded schedule (--replay)."""
-    import multiprocessing as mp
+    crashes / failures), explored separately and reported under keys of its own.  only = a recorded schedule (--replay);
+    results = the TLC runs of overlap_tlc_jobs when the caller has made them already."""
     if not atomic:
         ctx.note("overlapping_runs (beyond the stated quantifier)", "not explored: the put_item under test does not write to a temporary sibling "
                  "(spec/PublishOverlap.tla models temp + os.replace)")
         return
-    order = order or ([BIG, INDEX] if ctx.quick else ["thumb.jpg", BIG, INDEX])
-    crash = [0, 1] if (ctx.quick and not only) else [1, 1]
-    bound = None if only else 2 if ctx.quick else 3
+    suites = suites or overlap_suites(ctx, only, order)
+    if results is None:
+        from concurrent.futures import ThreadPoolExecutor
+        with ThreadPoolExecutor(3) as ex:
+            futs = {k: ex.submit(f) for k, f in overlap_tlc_jobs(ctx, suites).items()}
+            results = {k: f.result() for k, f in futs.items()}
+    notes = {}
+    for suite in suites:
+        notes[suite[0]] = overlap_replay_suite(ctx, suite, results["MCPublishOverlap_%s_asbuilt" % suite[0]],
+                                               results["MCPublishOverlap_%s_shared_refuted" % suite[0]], only)
+    lv = [k for k in results if k.endswith("_liveness")]
+    if lv:
+        notes["liveness"] = "neither publisher killed: some run gets the image published with every file complete (SomeoneCompletes, %d distinct states)" % results[lv[0]].distinct
+    notes["keys"] = "a failure here is reported under %s / %s and says that it lies outside the property's quantifier" % (K_OVERLAP_INDEX, K_OVERLAP_PUBLISHED)
+    ctx.note("overlapping_runs (beyond the stated quantifier)", notes)
 
-    def tlc(name, cfg_text, **kw):
-        return tlc_raw(name, extra={name + ".tla": overlap_module(name, order, crash)}, cfg_text=cfg_text, timeout=3000, **kw)
 
-    inv = ["TypeOK", "QIndexImpliesAll", "QPublishedImpliesAll", "ItemsWhole"]
-    from concurrent.futures import ThreadPoolExecutor
-    with ThreadPoolExecutor(2) as ex:
-        f1 = ex.submit(tlc, "MCPublishOverlap_asbuilt", overlap_cfg(False, inv, emit=True), workers=1)
-        f2 = ex.submit(tlc, "MCPublishOverlap_shared_refuted", overlap_cfg(True, ["TypeOK", "QIndexImpliesAll"]), workers=1, expect_violation=True, count=False)
-        r1, r2 = f1.result(), f2.result()
+def overlap_replay_suite(ctx, suite, r1, r2, only):
+    import multiprocessing as mp
+    tag, order, crash, bound, sym = suite
     if r2.violated != "QIndexImpliesAll":
         ctx.machinery("TLC was expected to refute QIndexImpliesAll for a temporary name shared by the two publishers, it reports %r" % (r2.violated,))
     edges = r1.json_lines("E")
     state, root, paths = overlap_paths(edges, bound)
     if len(state) != r1.distinct:
         ctx.machinery("overlap edge dump incomplete: %d states in the dump, TLC found %d" % (len(state), r1.distinct))
+    nall = len(paths)
+    if sym:
+        paths = [pth for pth in paths if pth[0][0][1] == 1]
     _G["overlap_state"] = state
     base = ctx.mkdtemp("overlap")
     if only:
@@ -1795,14 +1856,16 @@ def overlap_exploration(ctx, tlc_raw, atomic, only=None, order=None):
         ctx.violation(key, msg, rp)
     ctx.count(agg["runs"])
     ctx.trace_ok(agg["runs"])
-    ctx.note("overlapping_runs (beyond the stated quantifier)", {
-        "spec": "spec/PublishOverlap.tla: two publisher processes on one image (transfer list %s), process 1 / 2 may be killed %s times; inodes, names, blocks" % (order, crash),
+    for dk in range(agg["runs"]):
+        ctx.distinct(("overlap", tag, dk))
+    return {
+        "spec": "spec/PublishOverlap.tla: two publisher processes on one image (transfer list %s), publisher 1 / 2 may be killed %s times; inodes, names, blocks" % (order, crash),
         "tlc": {"temporary name per process (as built)": "QIndexImpliesAll, QPublishedImpliesAll, ItemsWhole hold (%d distinct states)" % r1.distinct,
                 "one temporary name per item": "%s REFUTED (counterexample of %d states)" % (r2.violated, r2.output.count("\nState "))},
-        "replayed": "%d schedules (%s) on two forked processes running the real publish(), let go one spec step at a time; %d steps; the real store and "
-                    "image directory compared with the spec state after every step (%d schedules with drift); a failure here is reported under the keys %s / %s"
+        "replayed": "%d schedules (%s%s) on two forked processes running the real publish(), let go one spec step at a time; %d steps; the real store and "
+                    "image directory compared with the spec state after every step (%d schedules with drift)"
                     % (agg["runs"], "every path of the graph" if bound is None else "every path of the graph with at most %d preemptions" % bound,
-                       agg["steps"], agg["ndrift"], K_OVERLAP_INDEX, K_OVERLAP_PUBLISHED)})
+                       ", publisher 1 first (the two are interchangeable): %d of %d" % (len(paths), nall) if sym else "", agg["steps"], agg["ndrift"])}
 
 
 def long_name_scenario(ctx):
@@ -1860,7 +1923,7 @@ def dump_graph(ctx, tlc, configs, budget, atomic, name, r=None, full=True, trave
 def replay_one(ctx, tlc, rep, atomic):
     """--replay FILE: follow the recorded history through a freshly dumped graph, on the tree under test."""
     if rep.get("overlap"):
-        return overlap_exploration(ctx, ctx.tlc, atomic, only=rep["schedule"], order=rep["order"])
+        return overlap_exploration(ctx, atomic, only=rep["schedule"], order=rep["order"])
     files = {i: set(fs) for i, fs in rep["files"].items()}
     if rep.get("probe"):
         pr = probe_traversal(ctx, {i: sorted(fs) for i, fs in files.items()}, rep.get("directory_order") == "reverse-sorted")
@@ -1925,7 +1988,7 @@ def run(ctx):
     if ctx.quick:
         suites = [("q", 2, [{"imgA": {A, B, C}}, {"imgA": {A, D}}]),
                   ("q1", 1, [{"imgA": {A, B, C, D}}, {"imgA": {A, B}, "imgB": {B, D}}]),
-                  ("qn", 1, [{"imgA": {A, B, T}}, {"imgA": {B, D, T2}, "imgB": {B, D}}])]
+                  ("qn", 1, [{"imgA": {A, B, T}}, {"imgA": {D, T2}}])]
     else:
         suites = [("t4", 2, [{"imgA": {A, B, C, D}}, {"imgA": {A, C, D}}, {"imgA": {A, B, C}, "imgB": {B, D}}, {"imgA": {B}}]),
                   ("t3", 3, [{"imgA": {A, B, C}}, {"imgA": {A, D}}, {"imgA": {A, B}, "imgB": {B, D}}]),
@@ -1948,7 +2011,7 @@ def run(ctx):
         rep = json.load(open(ctx.replay_path))["replay"]
         return replay_one(ctx, tlc, rep, atomic)
     if "--overlap-only" in getattr(ctx, "extra_args", ()):        # development aid: ./check C18 --overlap-only
-        return overlap_exploration(ctx, ctx.tlc, atomic)
+        return overlap_exploration(ctx, atomic)
 
     # file sets with sub-folders: which model does the publish() under test follow?  (as built: it raises at the sub-folder)
     probes = {}
@@ -1965,6 +2028,7 @@ def run(ctx):
                  "produce flat directories",
         "file_sets_the_tree_under_test_descends_into": sorted(descending)})
     inplace_too = lambda tag: not (ctx.quick and tag in nested_tags)          # noqa: E731
+    phase = {"start": time.time()}
     jobs = {}
     gsrc = {}          # suite -> theorem job whose run also dumps the graph (same store model and budget)
     for tag, budget, configs in suites:
@@ -1987,13 +2051,16 @@ def run(ctx):
         jobs["MCPublish_descend_index_last"] = (configsn, cfg(budgetn, True, Q_INV + ["QSkippedIsWhole"], PROPS, traversal="descend-index-last"), dict(workers=4))
         jobs["MCPublish_descend_any_refuted"] = (configsn, cfg(1, True, ["QIndexImpliesAll"], [], traversal="descend-any"),
                                                  dict(workers=1, expect_violation=True, count=False))
-    with ThreadPoolExecutor(4) as ex:
+    osuites = overlap_suites(ctx)
+    with ThreadPoolExecutor(6) as ex:
         futs = {k: ex.submit(tlc, k, v[0], v[1], **v[2]) for k, v in jobs.items()}
+        ofuts = {k: ex.submit(f) for k, f in overlap_tlc_jobs(ctx, osuites).items()} if atomic else {}
         gfuts = {tag: ex.submit(dump_graph, ctx, tlc, configs, budget, atomic,
                                 "MCPublish_%s_graph_%s_f%d" % (tag, "atomic" if atomic else "inplace", budget), None, 1 if ctx.quick else 3)
                  for tag, budget, configs in suites if tag not in gsrc}
         res = {k: f.result() for k, f in futs.items()}
         graphs = {k: f.result() for k, f in gfuts.items()}
+    phase["tlc"] = time.time()
     for tag, budget, configs in suites:
         if tag in gsrc:
             graphs[tag] = dump_graph(ctx, tlc, configs, budget, atomic, gsrc[tag], r=res[gsrc[tag]], full=1 if ctx.quick else 3)
@@ -2057,11 +2124,18 @@ def run(ctx):
                       "quiescent_states_where_refresh_skips_an_image_whose_index_itself_is_truncated (not claimed by the property)": agg["weak_whole"]}
         if agg["stray_names"]:
             rnote[tag]["stray_store_entries (not files of the image: ignored by the comparison, digits masked)"] = agg["stray_names"]
+        phase["replay " + tag] = time.time()
         if tag in nested_tags:
             rnote[tag]["runs_ending_with_publish_raising_at_a_sub_folder (as the spec says; re-run completeness not judged)"] = agg["refused"]
             rnote[tag]["refused_runs_that_changed_nothing (not continued)"] = agg["repeats"]
     long_name_scenario(ctx)
-    overlap_exploration(ctx, ctx.tlc, atomic)
+    phase["long name"] = time.time()
+    overlap_exploration(ctx, atomic, suites=osuites, results={k: f.result() for k, f in ofuts.items()})
+    phase["overlap"] = time.time()
+    import resource
+    ctx.note("maxrss_mb", round(resource.getrusage(resource.RUSAGE_SELF).ru_maxrss / 1024.0))
+    ks = list(phase)
+    ctx.note("phase_wall_s", {ks[j]: round(phase[ks[j]] - phase[ks[j - 1]], 1) for j in range(1, len(ks))})
     ctx.note("graph", gnote)
     ctx.note("replay", rnote)
     ctx.exhaustive = True
